@@ -298,6 +298,18 @@ WireDt(tok, W) ==
   IF tok \in DtTsToks THEN DtTokOf(MinutesFromUtc(DtOff(tok), W.dtOffset))
   ELSE tok
 
+(*---------------- real values: lexical form on the wire -------------------*)
+(* DSP0201 wants a decimal point in the significand.  Case distinction of   *)
+(* the %.11G / %.17G text of a real value that the binding covers           *)
+(* systematically (units `unit-real-exp`), for every valued element kind:   *)
+(*   "point"    the text has a decimal point (1.5E+10, 42.1)                *)
+(*   "integral" digits only (5 -> 5.0)                                      *)
+(*   "exp1"     ONE significant digit and an exponent (1E+22, 1E-07,        *)
+(*              -4E+200): the ".0" belongs before the E (1.0E+22), a text   *)
+(*              like 1E+22.0 cannot be parsed back                          *)
+(*   "special"  INF, -INF, NaN                                              *)
+RealLexForms == {"point", "integral", "exp1", "special"}
+
 (*------- the instance's own path and the same-named key property ---------*)
 (* An instance that is transmitted WITH its path carries every key twice:  *)
 (* as keybinding of the path and (usually) as property.  Nothing forces    *)
